@@ -46,3 +46,21 @@ package client
 //@   loop 0 invariant lenBound: len(filteredAlternativeNames) <= rangeindex + 1
 //@   loop 0 invariant nonEmpty: forall i int :: 0 <= i && i < len(filteredAlternativeNames) ==> filteredAlternativeNames[i] != ""
 //@   loop 0 invariant stable: sameSlice(raw.AlternativeNames, old(raw.AlternativeNames)) && raw.ServerName == old(raw.ServerName)
+
+// ---------------------------------------------------------------------------------------------
+// C06: what the client seals is what the server opens. Same vocabulary as package server
+// (authKey / authValid / authPlain there): an AES-GCM box under the ECDH shared secret, nonce = first
+// 12 bytes of the ephemeral public key, 48 bytes of plaintext laid out as
+//    UID[0:16] | ProxyMethod[16:28] | EncryptionMethod[28] | timestamp[29:37] | SessionId[37:41] | flags[41] | reserved
+// ---------------------------------------------------------------------------------------------
+//@ ghost func payKey(ss [32]byte) int { return uf("aead_mk", 1, prefix(ss, 32), 32, 0) }
+//@ ghost func payValid(p authenticationPayload, ss [32]byte) bool { return ufb("aead_valid", payKey(ss), prefix(p.randPubKey, 12), 12, prefix(p.ciphertextWithTag, 64), 64) }
+//@ ghost func payPlain(p authenticationPayload, ss [32]byte, k int) byte { return ufbytes("aead_open", k, payKey(ss), prefix(p.randPubKey, 12), 12, prefix(p.ciphertextWithTag, 64), 64) }
+//@ func makeAuthenticationPayload
+//@   requires keyOK: typeIs[*[32]byte](authInfo.ServerPubKey) && authInfo.ServerPubKey.(*[32]byte) != nil && authInfo.WorldState.Rand != nil && len(authInfo.UID) == 16
+//@   ensures sealed: payValid(ret, sharedSecret)
+//@   ensures uid: forall k int :: 0 <= k && k < 16 ==> payPlain(ret, sharedSecret, k) == authInfo.UID[k]
+//@   ensures encryptionMethod: payPlain(ret, sharedSecret, 28) == authInfo.EncryptionMethod
+//@   ensures sessionId: int(payPlain(ret, sharedSecret, 37))*16777216 + int(payPlain(ret, sharedSecret, 38))*65536 + int(payPlain(ret, sharedSecret, 39))*256 + int(payPlain(ret, sharedSecret, 40)) == int(authInfo.SessionId)
+//@   ensures orderedFlag: (payPlain(ret, sharedSecret, 41) % 2 == 1) == authInfo.Unordered
+//@   flag noframe
